@@ -758,7 +758,13 @@ func c05Corpus() []*cGraph {
 		Imports: [][]int{{1, 2}, {3}, {3}, {}},
 		Spell:   [][]string{{"f1", "f2"}, {"//github.com/org/repo/r3.sysl@master"}, {"//github.com/org/repo/r3@main"}, {}},
 	}
-	return []*cGraph{w, v}
+	// files of two directories with the very same import line: `import b` names x/b in one and y/b in the other
+	tw := &cGraph{N: 5, Fault: map[string]string{},
+		Paths:   []string{"f0.sysl", "x/a.sysl", "x/b.sysl", "y/c.sysl", "y/b.sysl"},
+		Imports: [][]int{{1, 3}, {2}, {}, {4}, {}},
+		Spell:   [][]string{{"x/a", "y/c"}, {"b"}, {}, {"b"}, {}},
+	}
+	return []*cGraph{w, v, tw}
 }
 
 // files cut short at a point where everything before the cut is well-formed (the parser's complaint is about
